@@ -225,6 +225,12 @@ def run_cases(mod, ctx, indices, soft_deadline=None):
                 ctx.harness_errors.append({"case_index": i, "traceback": tb[-2500:]})
     if hasattr(mod, "teardown"):
         mod.teardown(ctx)
+    from . import model as _M
+
+    for k, v in _M.ENV_COUNTS.items():
+        if v:
+            ctx.count("optimize_calls_with_logging:" + k, v)
+            _M.ENV_COUNTS[k] = 0
     ctx.case_index = None
 
 
